@@ -172,7 +172,7 @@ impl<'a> Interp<'a> {
     fn raw_dec(&self, fac: usize, key: &[u8], block: &[u8]) -> Vec<u8> {
         let bs = self.facs[fac].bs();
         let mut o = self.facs[fac]
-            .make("cbc", "dec", key, &vec![0u8; bs], "inner")
+            .make("cbc", "dec", key, &vec![0u8; bs], "inner", None)
             .ok()
             .unwrap();
         o.blocks(block, None, false).out
@@ -210,6 +210,10 @@ impl<'a> Interp<'a> {
                 }
             }
             return Some(base);
+        }
+        if let Some(x) = src.get("shift") {
+            let by = src["by"].as_i64().unwrap();
+            return self.src_bytes(x, (from as i64 + by) as usize, len);
         }
         if let Some(a) = src.get("splice") {
             let at = src["at"].as_u64().unwrap() as usize;
@@ -286,7 +290,7 @@ impl<'a> Interp<'a> {
                 let key = self.key_bytes(fac, c);
                 let iv = self.iv_bytes(fac, &kind, &key, c);
                 let f = &self.facs[fac];
-                let r = Self::guarded(|| f.make(&kind, &dir, &key, &iv, via));
+                let r = Self::guarded(|| f.make(&kind, &dir, &key, &iv, via, None));
                 let (res, obj) = match r {
                     Ok(Ok(ob)) => ("ok", Some(ob)),
                     Ok(Err(Res::Unsupported)) => {
@@ -413,6 +417,19 @@ impl<'a> Interp<'a> {
                     None => c["v"].as_str().unwrap().parse().unwrap(),
                 };
                 let r = Self::guarded(|| obj.set_bpos(v));
+                let r = match r {
+                    Ok(Res::Unsupported) if ctr_bits(&l.kind).is_some() && l.off == 0 => {
+                        // byte-level wrapper: position the core first, then wrap it (from_core path)
+                        let f = &self.facs[l.fac];
+                        let (kind, dir, key, iv) = (l.kind.clone(), l.dir.clone(), l.key.clone(), l.iv.clone());
+                        match Self::guarded(|| f.make(&kind, &dir, &key, &iv, "inner", Some(v))) {
+                            Ok(Ok(ob)) => { l.obj = Some(ob); Ok(Res::Ok) }
+                            Ok(Err(e)) => Ok(e),
+                            Err(()) => Err(()),
+                        }
+                    }
+                    x => x,
+                };
                 let res = match r {
                     Ok(Res::Unsupported) => { self.skipped += 1; return; }
                     Ok(x) => res_str(x),
@@ -436,6 +453,17 @@ impl<'a> Interp<'a> {
             "import" => {
                 // fresh object under the same key from the last exported state of `from`
                 let from = c["from"].as_str().unwrap().to_string();
+                {
+                    let Some(l) = self.objs.get_mut(&from) else { self.skipped += 1; return; };
+                    let Some(obj) = l.obj.as_ref() else { self.skipped += 1; return; };
+                    match Self::guarded(|| obj.export()) {
+                        Ok(Some((st, pos))) => {
+                            l.last_export = Some((st.clone(), pos));
+                            self.events.push(json!({"ev":"export","o":from,"v":st,"pos":pos,"res":"ok"}));
+                        }
+                        _ => { self.skipped += 1; return; }
+                    }
+                }
                 let Some(l) = self.objs.get(&from) else { self.skipped += 1; return; };
                 let Some((st, pos)) = l.last_export.clone() else { self.skipped += 1; return; };
                 let (fac, kind, key, src, off) = (l.fac, l.kind.clone(), l.key.clone(), l.src.clone(), l.off);
